@@ -5,6 +5,7 @@
 
 pub mod common;
 pub mod corpus;
+pub mod effects;
 pub mod engines;
 pub mod props;
 pub mod refmodel;
